@@ -30,22 +30,30 @@ Print Assumptions C12_noninterference.
    re-created if gone and restricted again right before every key store, so the statements hold for EVERY
    history, with no class hypothesis. *)
 
-(* in EVERY environment and history: the mode is 0o700 at every creation of a key file inside the key directory *)
+(* The directory the agent finds when it first starts is arbitrary: absent, or present with ANY owner and mode
+   ([dir_matches predir d0]: 0o755 of another account, 0o700 of another account -- pre-created by a local user --,
+   0o700 root:other-group, 0o755 root:root, ...). *)
+
+(* in EVERY environment, history and initial directory: the mode is 0o700 at every creation of a key file inside
+   the key directory *)
 Theorem C12_dir_mode_restricted_at_create :
-  forall (v : variant) (predir co : bool) (h : history) (pre post : list sys),
-  sys_trace v predir co h = pre ++ Create FKeyFile :: post -> mode_restricted (dir_after predir pre) = true.
+  forall (v : variant) (predir co : bool) (h : history) (d0 : dirstate) (pre post : list sys),
+  dir_matches predir d0 ->
+  sys_trace v predir co h = pre ++ Create FKeyFile :: post -> mode_restricted (dir_after d0 pre) = true.
 Proof. exact dir_mode_restricted_at_create. Qed.
 Print Assumptions C12_dir_mode_restricted_at_create.
 
-(* where chown can succeed the directory is root:root AND 0o700 at every such creation *)
+(* where chown can succeed: owner root:root AND mode 0o700 at every such creation, whoever owned the directory before *)
 Theorem C12_dir_restricted_at_create :
-  forall (v : variant) (predir : bool) (h : history) (pre post : list sys),
-  sys_trace v predir true h = pre ++ Create FKeyFile :: post -> restricted (dir_after predir pre) = true.
+  forall (v : variant) (predir : bool) (h : history) (d0 : dirstate) (pre post : list sys),
+  dir_matches predir d0 ->
+  sys_trace v predir true h = pre ++ Create FKeyFile :: post -> restricted (dir_after d0 pre) = true.
 Proof. exact dir_restricted_at_create. Qed.
 Print Assumptions C12_dir_restricted_at_create.
 
 (* DESIGN form: the chmod 0o700 (= 448) precedes every creation of a key file in the key directory, in every
-   environment and history; so does the chown root:root wherever it can succeed *)
+   environment and history; so does the chown root:root wherever it can succeed -- the agent never relies on the
+   mode or owner it finds *)
 Theorem C12_dir_restricted_first :
   forall (v : variant) (predir co : bool) (h : history) (pre post : list sys),
   sys_trace v predir co h = pre ++ Create FKeyFile :: post ->
